@@ -208,7 +208,7 @@ void ebpps_sketch<T, A>::merge(const ebpps_sketch<T, A>& sk) {
     // need to swap this with sk to merge, so make a copy, swap,
     // and use that to merge
     ebpps_sketch sk_copy(sk);
-    swap(*this, sk_copy);
+    std::swap(*this, sk_copy);
     if (sk_copy.get_cumulative_weight() == 0.0)
       shrink_to_k(sk_copy.k_); // the former *this is empty: nothing to insert
     else
